@@ -25,6 +25,14 @@ CHECKS = {
         note="stored-attribute tables and printed digits typed per format in props/fmtspecs.py / wfnspecs.py; multi-line titles outside the domain",
         design="DESIGN.md §2 C02",
     ),
+    "C05": dict(
+        level="exploration",
+        technique="exhaustive product (shell subsets x Cartesian/pure x 7 vendor encodings) + deviation-bounded variation of container/orbitals/threshold/corruption on the real Molden/Molekel loaders, independent encoders and evaluator",
+        text="Every non-empty subset of l=0..3 (quick) / 0..5 (thorough), each l>=2 Cartesian or pure, encoded as standard, ORCA, PSI4<=1.0, Turbomole, CFOUR 2.1, unnormalised contractions, PSI4<=1.3.2 by independent writers; "
+        "loaded orbitals must equal the true wavefunction at 10 probe points and be orthonormal under the reference overlap, a LoadWarning iff the encoding differs from the standard, corrupted files rejected or normalised within threshold.",
+        note="encoders restate the quirks as iodata documents them; any correction label accepted where encodings coincide; corpus vendor files anchor the encoders",
+        design="DESIGN.md §2 C05",
+    ),
     "C06": dict(
         level="exploration",
         technique="exhaustive grid identity for the 1-D kernel (degree argument), exhaustive table comparison, deviation-bounded enumeration over all ordered shell-type pairs on the real compute_overlap",
